@@ -222,7 +222,7 @@ def lay_out(draw, prog):
                 lay_value(x)
 
     for c in prog["commands"]:
-        c["g"] = [draw(RD.inline_gap()), draw(RD.inline_gap()), draw(RD.inline_gap()), draw(RD.gaps(5))]
+        c["g"] = [draw(RD.inline_gap()), draw(RD.inline_gap()), draw(RD.gaps(1)), draw(RD.gaps(5))]
         c["trail_comma"] = draw(st.booleans())
         c["after"] = draw(RD.gaps(10))
         for a in c["args"]:
@@ -464,6 +464,13 @@ def check_fault(case, rec):
         if loc[0] == "exec":
             if line is not None and not (cmd_span[0] <= line <= cmd_span[1]):
                 fails.append(Failure("%s|wrong_line|%s" % (kind, hist), "line %r outside the command span %r\n%s" % (line, cmd_span, text)))
+            elif line is not None and case["fault"] in ("invalid_direction", "invalid_truest", "invalid_number_to_consider", "duplicate_raw_values"):
+                # the value of one particular argument is at fault: the line is the command's own or lies inside that
+                # argument, not inside a neighbouring one
+                arg_span = (lm[("arg", loc[1], loc[2])], lm[("val", loc[1], loc[2], "end")])
+                if line != cmd_span[0] and not (arg_span[0] <= line <= arg_span[1]):
+                    fails.append(Failure("%s|wrong_line:another_argument|%s" % (kind, hist),
+                                         "line %r; the command starts on line %d, the offending argument spans %r\n%s" % (line, cmd_span[0], arg_span, text)))
         elif line is None:
             fails.append(Failure("%s|none_line|%s" % (kind, hist), "no line; expected %r\n%s" % (span, text)))
         elif not (span[0] <= line <= span[1]):
